@@ -5,8 +5,15 @@
    unreachable!()s, Array4::update's expect()s / unreachable!() / num_at_cur_min underflow, the
    debug_assert!s of shift_to_bigger_cur_min (repaired defect D10: the assertion was inverted), the
    shift loop running out of its 64 rounds, the asserts and unreachable!()s of the union's merge
-   helpers, `1 << lg_arr` in the reader.  Fixed-width arithmetic is not modelled: every quantity is
-   bounded by the proved invariants (register values <= 63, counts <= 2^21) far below u8/u32. *)
+   helpers.  Fixed-width arithmetic is not modelled: every quantity is bounded by the proved
+   invariants (register values <= 63, counts <= 2^21) far below u8/u32.
+   NOT COVERED by any theorem: estimate() / upper_bound() / lower_bound() of HllSketch and of
+   HllUnion.  Their panic sites (the debug_assert!s of cubic_interpolation, the slice indexing of
+   composite_interpolation / harmonic_numbers, get_rel_err's table lookups) have no Stuck counterpart:
+   the model's hll_estimate is a total function and the composite estimator is not modelled.  They
+   are exercised by the correspondence run only (estimate and the three bounds after every phase of
+   the extremes leg, lg_k 4 and 21, all types, debug and release, panic_is_violation).
+   Sketches obtained from the reader are covered through the bridge (canonical images only). *)
 From DS Require Import Base.Prelude Model.Hll Model.HllUnion Model.HllCodec Proofs.HllBase Proofs.HllArray4 Proofs.HllRefine
   Proofs.HllUnionProofs Proofs.HllCodecProofs Proofs.HllSafe.
 Open Scope N_scope.
@@ -35,11 +42,23 @@ Theorem c17_hll_union_never_stuck :
   exists u0 u r, union_new lg_max = Ok u0 /\ uops_run ops u0 = Ok u /\ union_to_sketch u t = Ok r.
 Proof. exact union_never_stuck. Qed.
 
-(* serialize and deserialize: the image of every reachable sketch is accepted; arbitrary bytes never panic *)
+(* serialize and deserialize: never a panic site; the image of a reachable sketch is accepted whenever
+   its estimator fields pass the reader's finiteness check (est_ok: a hypothesis, see C11_hll.v) *)
 Theorem c17_hll_roundtrip_never_stuck :
   forall lgk t cs, 4 <= lgk <= 21 -> Forall valid cs ->
-  exists s s', run_stream hip_new hip_update hip_carry lgk t cs = Ok s /\ hll_deserialize (hll_serialize s) = Ok s'.
+  exists s, run_stream hip_new hip_update hip_carry lgk t cs = Ok s /\ hll_deserialize (hll_serialize s) <> Stuck /\
+    (est_ok s -> exists s', hll_deserialize (hll_serialize s) = Ok s').
 Proof. exact roundtrip_never_stuck. Qed.
+
+(* what the reader returns (canonical images) can be updated further and merged: never stuck *)
+Theorem c17_hll_deserialized_updates_never_stuck :
+  forall bs s us, BOK bs -> hll_deserialize bs = Ok s -> image_canonical s -> Forall valid us ->
+  exists s', update_all hip_new hip_update hip_carry us s = Ok s'.
+Proof. exact deserialized_updates_never_stuck. Qed.
+
+Theorem c17_hll_deserialized_is_union_input :
+  forall bs s, BOK bs -> hll_deserialize bs = Ok s -> image_canonical s -> exists i, uop_ok (UMerge i s).
+Proof. exact deserialized_is_union_input. Qed.
 
 Theorem c17_hll_deserialize_never_stuck : forall bs, hll_deserialize bs <> Stuck.
 Proof. exact hll_deserialize_total. Qed.
